@@ -21,7 +21,7 @@ import (
 
 // C20 — a registered custom codec governs its type everywhere and nothing else.
 
-const c20Rule = "rapid draws of histories over the ops register(custom type in {struct, named int64, named []string}, builder j in {0,1}, schema form in {bytes, [null,bytes]}) and " +
+const c20Rule = "rapid draws of histories over the ops register(custom type in {struct, named int64, named []string: bytes schema; named string: string schema}, builder j in {0,1}, schema form in {T, [null,T]}) and " +
 	"roundtrip(a generated struct type placing registered types and unregistered look-alikes with the same underlying type as field, behind 1-2 pointers, as slice element, as map value, under omitempty, next to time.Time / null.*; values); " +
 	"every builder frames its payload with its own marker byte and counts Read/Write calls; model = latest registration per type; oracle per roundtrip: SchemaForType equals the model mapping with the registered schema at each occurrence " +
 	"(wrapped in a union exactly when the mapping says so); the reference decoder finds the latest builder's marker at every occurrence and none at look-alikes (which use the default mapping); values round-trip; " +
@@ -35,6 +35,7 @@ type (
 	}
 	CInt   int64
 	CSlice []string
+	CStr   string
 	// look-alikes: same underlying types, never registered
 	LStruct struct {
 		A int64
@@ -45,6 +46,7 @@ type (
 )
 
 type customDef struct {
+	wire   string // schema type the custom codec is registered with: bytes or string
 	kind   string
 	typ    reflect.Type
 	encode func(p unsafe.Pointer) []byte
@@ -94,6 +96,24 @@ var customDefs = []*customDef{
 		},
 		isZero: func(p unsafe.Pointer) bool { return len(*(*CSlice)(p)) == 0 },
 	},
+	{
+		// a named string registered with a *string* schema: in a nullable union this
+		// is exactly the shape the library has a dedicated fast codec for
+		kind: "cstr", typ: reflect.TypeOf(CStr("")), wire: "string",
+		encode: func(p unsafe.Pointer) []byte { return []byte(strings.ToValidUTF8(string(*(*CStr)(p)), "?")) },
+		decode: func(p unsafe.Pointer, b []byte) error {
+			*(*CStr)(p) = CStr(b)
+			return nil
+		},
+		isZero: func(p unsafe.Pointer) bool { return *(*CStr)(p) == "" },
+	},
+}
+
+func (d *customDef) wireKind() string {
+	if d.wire == "" {
+		return "bytes"
+	}
+	return d.wire
 }
 
 // registration state (the model): latest builder and schema form per custom kind
@@ -104,9 +124,9 @@ type regState struct {
 
 var (
 	c20State  = map[string]*regState{}
-	c20Reads  [3][2]atomic.Int64 // [type][builder]
-	c20Writes [3][2]atomic.Int64
-	c20Builds [3][2]atomic.Int64
+	c20Reads  [4][2]atomic.Int64 // [type][builder]
+	c20Writes [4][2]atomic.Int64
+	c20Builds [4][2]atomic.Int64
 )
 
 // markedCodec is the custom codec: bytes = marker ‖ payload.
@@ -118,12 +138,25 @@ type markedCodec struct {
 	nullable bool
 }
 
-func (c markedCodec) marker() byte { return byte(0xC0 + c.ti*2 + c.j) }
+func c20Marker(def *customDef, ti, j int) byte {
+	if def.wireKind() == "string" {
+		return byte('A' + ti*2 + j) // stays valid UTF-8
+	}
+	return byte(0xC0 + ti*2 + j)
+}
+
+func (c markedCodec) marker() byte { return c20Marker(c.def, c.ti, c.j) }
 
 func (c markedCodec) Read(r *avro.ReadBuf, p unsafe.Pointer) error {
 	c20Reads[c.ti][c.j].Add(1)
 	var b []byte
-	if err := c.BytesCodec.Read(r, unsafe.Pointer(&b)); err != nil {
+	if c.def.wireKind() == "string" {
+		var s string
+		if err := (avro.StringCodec{}).Read(r, unsafe.Pointer(&s)); err != nil {
+			return err
+		}
+		b = []byte(s)
+	} else if err := c.BytesCodec.Read(r, unsafe.Pointer(&b)); err != nil {
 		return err
 	}
 	if len(b) == 0 || b[0] != c.marker() {
@@ -135,6 +168,11 @@ func (c markedCodec) Read(r *avro.ReadBuf, p unsafe.Pointer) error {
 func (c markedCodec) Write(w *avro.WriteBuf, p unsafe.Pointer) {
 	c20Writes[c.ti][c.j].Add(1)
 	b := append([]byte{c.marker()}, c.def.encode(p)...)
+	if c.def.wireKind() == "string" {
+		s := string(b)
+		avro.StringCodec{}.Write(w, unsafe.Pointer(&s))
+		return
+	}
 	c.BytesCodec.Write(w, unsafe.Pointer(&b))
 }
 
@@ -147,16 +185,16 @@ func (c markedCodec) Omit(p unsafe.Pointer) bool {
 func c20Register(ti, j int, nullable bool) {
 	def := customDefs[ti]
 	avro.Register(def.typ, func(s avro.Schema, typ reflect.Type, omit bool) (avro.Codec, error) {
-		if s.Type != "bytes" {
-			return nil, fmt.Errorf("custom type %s needs a bytes schema, not %q", def.kind, s.Type)
+		if s.Type != def.wireKind() {
+			return nil, fmt.Errorf("custom type %s needs a %s schema, not %q", def.kind, def.wireKind(), s.Type)
 		}
 		c20Builds[ti][j].Add(1)
 		return markedCodec{def: def, ti: ti, j: j, omit: omit, nullable: nullable}, nil
 	})
-	lib := avro.Schema{Type: "bytes"}
-	model := ref.Prim("bytes")
+	lib := avro.Schema{Type: def.wireKind()}
+	model := ref.Prim(def.wireKind())
 	if nullable {
-		lib = avro.Schema{Type: "union", Union: []avro.Schema{{Type: "null"}, {Type: "bytes"}}}
+		lib = avro.Schema{Type: "union", Union: []avro.Schema{{Type: "null"}, {Type: def.wireKind()}}}
 		model = ref.Nullable(model)
 	}
 	avro.RegisterSchema(def.typ, lib)
@@ -167,15 +205,15 @@ func c20Register(ti, j int, nullable bool) {
 func init() {
 	for ti, def := range customDefs {
 		ti, def := ti, def
-		base := map[string]string{"cstruct": "int64", "cint": "int64", "cslice": "string"}[def.kind]
+		base := map[string]string{"cstruct": "int64", "cint": "int64", "cslice": "string", "cstr": "string"}[def.kind]
 		spec.Custom[def.kind] = &spec.CustomKind{
-			Type: def.typ, Schema: ref.Prim("bytes"), Base: base,
+			Type: def.typ, Schema: ref.Prim(def.wireKind()), Base: base,
 			Set: func(dst reflect.Value, v spec.ValueSpec) { c20Set(def.kind, dst, v) },
 			Abs: func(v reflect.Value) spec.AbsVal {
 				st := c20State[def.kind]
 				p := reflect.New(def.typ)
 				p.Elem().Set(v)
-				a := spec.AbsVal{K: "bytes", S: append([]byte{byte(0xC0 + ti*2 + st.builder)}, def.encode(p.UnsafePointer())...)}
+				a := spec.AbsVal{K: def.wireKind(), S: append([]byte{c20Marker(def, ti, st.builder)}, def.encode(p.UnsafePointer())...)}
 				if st.nullable {
 					a.Nullable = true
 					if def.isZero(p.UnsafePointer()) {
@@ -224,6 +262,8 @@ func c20Set(kind string, dst reflect.Value, v spec.ValueSpec) {
 		}
 	case "cint":
 		dst.SetInt(v.I)
+	case "cstr":
+		dst.SetString(strings.ToValidUTF8(string(v.S), "?"))
 	case "cslice", "lslice":
 		parts := strings.FieldsFunc(string(v.S), func(r rune) bool { return r == ' ' || r == 0 || r == '-' })
 		if len(parts) == 0 {
@@ -310,7 +350,7 @@ func runC20(c c20Case) (bool, []string, error) {
 			return nontrivial, labels, fmt.Errorf("step %d: schema does not show the registered schema where the type occurs: %s\n%s", step, d, b)
 		}
 		// (2) write
-		var before [3][2][2]int64
+		var before [4][2][2]int64
 		for ti := range customDefs {
 			for j := 0; j < 2; j++ {
 				before[ti][j] = [2]int64{c20Reads[ti][j].Load(), c20Writes[ti][j].Load()}
@@ -370,11 +410,11 @@ func runC20(c c20Case) (bool, []string, error) {
 
 func drawC20(t *rapid.T) c20Case {
 	var c c20Case
-	leaves := []string{"cstruct", "cint", "cslice", "lstruct", "lint", "lslice", "cstruct", "cint", "cslice", "time", "nullInt", "int64", "string"}
+	leaves := []string{"cstruct", "cint", "cslice", "cstr", "lstruct", "lint", "lslice", "cstruct", "cint", "cslice", "cstr", "time", "nullInt", "int64", "string"}
 	n := gen.UniformRange(t, "nops", 1, 8)
 	for i := 0; i < n; i++ {
 		if gen.Uniform(t, "op", 3) == 0 {
-			c.Ops = append(c.Ops, c20Op{Register: true, Type: gen.Uniform(t, "type", 3), Builder: gen.Uniform(t, "builder", 2), Nullable: rapid.Bool().Draw(t, "nullable")})
+			c.Ops = append(c.Ops, c20Op{Register: true, Type: gen.Uniform(t, "type", 4), Builder: gen.Uniform(t, "builder", 2), Nullable: rapid.Bool().Draw(t, "nullable")})
 			continue
 		}
 		ts := gen.StructType(t, gen.TypeOpts{MaxDepth: 3, MaxFields: 4, Leaves: leaves}, 1)
